@@ -2,12 +2,13 @@
 from __future__ import annotations
 
 import ast
+import io
 import struct
 from typing import Dict, List, Optional, Tuple
 
 from sa.astx import NotConst, call_attr, call_name, const_eval, dotted, lincmp, module_consts, src, statements, walk_local
-from sa.props._lib_g import (attrs_to_names, class_const, expand, fmt_lin, fresh, is_self_attr, lin_equal, lin_expect, module_classes, must_pass, norm_cmp,
-                             single_defs, struct_codes)
+from sa.props._lib_g import (Inst, MiniEval, attrs_to_names, class_const, expand, fmt_lin, fresh, is_self_attr, lin_equal, lin_expect, module_classes, must_pass, norm_cmp,
+                             run_eval, single_defs, struct_codes)
 from sa.selftest import Mutant, Silent
 from sa.source import AnalysisError, base_names, class_assigns, methods, mro_lookup
 
@@ -704,7 +705,8 @@ def check_name_limits(ctx, mod, consts):
     ctx.check(ok, "name/pointer-form", q + " | <recorded offset>", "the offset remembered for later back-references is not `position in the body + header size`: "
               "pointers would not address the start of the name within the message")
     # decoder side of the pointer: (l & 63) << 8 | next byte, taken when the two top bits are set
-    d = ctx.func(DNS, "Name.decode")
+    d = _name_label_reader(ctx)
+    dq = f"{Q}.Name.{d.name}"
     ptr = [st for st in statements(d) if isinstance(st, ast.Assign) and any(isinstance(x, ast.BinOp) and isinstance(x.op, ast.LShift) for x in ast.walk(st.value))]
     ok = False
     if len(ptr) == 1:
@@ -727,7 +729,7 @@ def check_name_limits(ctx, mod, consts):
                     break
                 if v != (((hi << 8) | lo) & 0x3FFF):
                     ok = False
-    ctx.check(ok, "name/pointer-form", Q + ".Name.decode | <pointer value>", "the decoder does not compute the 14-bit offset ((first & 0x3F) << 8) | second of a compression pointer")
+    ctx.check(ok, "name/pointer-form", dq + " | <pointer value>", "the decoder does not compute the 14-bit offset ((first & 0x3F) << 8) | second of a compression pointer")
     tests = [t for t in ast.walk(d) if isinstance(t, ast.Compare) and any(isinstance(x, ast.BinOp) and isinstance(x.op, ast.RShift) for x in ast.walk(t))]
     okt = False
     if len(tests) == 1:
@@ -736,8 +738,21 @@ def check_name_limits(ctx, mod, consts):
             okt = all(bool(const_eval(tests[0], {lname: b})) == (b >= 0xC0) for b in range(256))
         except NotConst:
             okt = False
-    ctx.check(okt, "name/pointer-form", Q + ".Name.decode | <pointer test>", "the decoder does not treat exactly the bytes 0xC0..0xFF as the first byte of a compression pointer")
+    ctx.check(okt, "name/pointer-form", dq + " | <pointer test>", "the decoder does not treat exactly the bytes 0xC0..0xFF as the first byte of a compression pointer")
     return all_label_guarded
+
+
+def _name_label_reader(ctx) -> ast.FunctionDef:
+    """The method of Name that reads length bytes and follows pointers (Name.decode today; a helper after a refactor)."""
+    cls = ctx.cls(DNS, "Name")
+    cands = [m for m in methods(cls).values()
+             if any(isinstance(x, ast.Call) and call_name(x) == "ord" for x in ast.walk(m))
+             and any(isinstance(x, ast.Call) and call_attr(x) == "seek" for x in ast.walk(m))
+             and any(isinstance(x, ast.BinOp) and isinstance(x.op, ast.LShift) for x in ast.walk(m))]
+    if len(cands) != 1:
+        _fail(f"Name: the method that reads labels and follows compression pointers was not identified ({[m.name for m in cands]})")
+    ctx.functions.add(f"{DNS}:Name.{cands[0].name}")
+    return cands[0]
 
 
 def check_name_reader(ctx, mod, consts, encoder_limits_labels: bool):
@@ -745,9 +760,9 @@ def check_name_reader(ctx, mod, consts, encoder_limits_labels: bool):
     h1.example.com after example.com adds one hop per nesting level), so the only input Name.decode may refuse while following
     pointers is a true cycle - a target already visited in this name.  Any other rejection is a condition the writer does not
     respect, i.e. Twisted would refuse its own valid output."""
-    f = ctx.func(DNS, "Name.decode")
+    f = _name_label_reader(ctx)
     g = ctx.cfg(f)
-    q = Q + ".Name.decode"
+    q = f"{Q}.Name.{f.name}"
     defs = single_defs(f)
     seeks = g.find(lambda x: isinstance(x, ast.Call) and call_attr(x) == "seek")
     loops = [x for x in ast.walk(f) if isinstance(x, ast.While)]
@@ -755,16 +770,14 @@ def check_name_reader(ctx, mod, consts, encoder_limits_labels: bool):
         _fail("Name.decode: the label loop was not found exactly once")
     loop = loops[0]
     heads = g.ids(lambda n: n.kind == "join" and n.ast is loop)
-    jump = [s_ for s_ in seeks if g.path([s_], heads, edge_ok=lambda a, b, l: l != "exc")]
+    ptr_defs = [st for st in statements(f) if isinstance(st, ast.Assign) and len(st.targets) == 1 and isinstance(st.targets[0], ast.Name)
+                and any(isinstance(x, ast.BinOp) and isinstance(x.op, ast.LShift) for x in ast.walk(st.value))]
+    if len(ptr_defs) != 1:
+        _fail("Name: the assignment computing the pointer target was not found exactly once")
+    target = ptr_defs[0].targets[0].id
+    jump = [s_ for s_ in seeks if any(isinstance(x, ast.Call) and call_attr(x) == "seek" and [src(a) for a in x.args[:1]] == [target] for x in walk_local(g.node(s_).ast))]
     if not jump:
-        _fail("Name.decode: no seek() that continues the loop (pointer following) was found")
-    targets = set()
-    for s_ in jump:
-        call = next(x for x in walk_local(g.node(s_).ast) if isinstance(x, ast.Call) and call_attr(x) == "seek")
-        targets.add(src(call.args[0]) if call.args else "?")
-    if len(targets) != 1:
-        _fail(f"Name.decode: several pointer targets {sorted(targets)}")
-    target = next(iter(targets))
+        _fail(f"Name: no seek({target}) (pointer following) was found")
     # the length-byte variable and the pointer test
     ptests = []
     for t in g.ids(lambda n: n.kind == "test"):
@@ -855,6 +868,19 @@ def check_name_reader(ctx, mod, consts, encoder_limits_labels: bool):
                 if st.func.attr in ("__contains__", "count", "index", "copy"):
                     continue
                 bad.append(src(st))
+        params = [a.arg for a in f.args.args]
+        if inits == 0 and cont in params:
+            # the container is handed in by the callers inside the class: each must pass a fresh empty one (or pass its own on)
+            pos = params.index(cont) - 1
+            sites = [c for m in methods(ctx.cls(DNS, "Name")).values() for c in ast.walk(m) if isinstance(c, ast.Call) and call_name(c) == f"self.{f.name}"]
+            fresh_ok = bool(sites)
+            for c in sites:
+                a = c.args[pos] if pos < len(c.args) else next((k.value for k in c.keywords if k.arg == cont), None)
+                emptyc = isinstance(a, ast.Call) and call_name(a) in ("set", "list") and not a.args or (isinstance(a, (ast.List, ast.Set)) and not a.elts)
+                if not (emptyc or (isinstance(a, ast.Name) and a.id == cont)):
+                    fresh_ok = False
+            if fresh_ok:
+                inits = 1
         ctx.check(inits == 1 and not bad, "name/reader-accepts-writer", q + f" | {cont}",
                   f"`{cont}` must start empty before the loop and only ever receive the offsets jumped to ({cont}.add({target})); found: {bad or 'no single empty initialisation'} - "
                   "otherwise an offset that was never visited can be taken for a cycle")
@@ -1183,6 +1209,97 @@ def check_registry(ctx, mod, consts):
     ctx.check(len(calls) == 1, "registry/unknown-fallback", f"{Q}.Message.parseRecords | <rdlength passed>", "the payload decoder is not given the record's rdlength (length-delimited records cannot be read)")
 
 
+def check_payload_always_built(ctx, mod, consts):
+    """Message.parseRecords must hand back a payload object for every record the encoder can emit - also one with empty RDATA
+    (Record_NULL(b''), UnknownRecord(b''), Record_TXT()): building and decoding the payload may depend only on the type look-up."""
+    f = ctx.func(DNS, "Message.parseRecords")
+    g = ctx.cfg(f)
+    q = Q + ".Message.parseRecords"
+    builds = g.ids(lambda n: n.kind == "stmt" and isinstance(n.ast, ast.Assign) and any(isinstance(t, ast.Attribute) and t.attr == "payload" for t in n.ast.targets)
+                   and isinstance(n.ast.value, ast.Call))
+    decodes = g.find(lambda x: isinstance(x, ast.Call) and call_attr(x) == "decode" and src(x.func.value).endswith(".payload"))
+    appends = g.find(lambda x: isinstance(x, ast.Call) and call_attr(x) == "append")
+    ctx.need(builds, "payload construction in parseRecords")
+    ctx.need(decodes, "payload.decode call in parseRecords")
+    ctx.need(appends, "append of the decoded header in parseRecords")
+    tnames = {src(g.node(b).ast.value.func) for b in builds}
+    for n in builds + decodes:
+        for t, lab in g.edge_guards(n):
+            te = g.node(t).ast
+            txt = src(te)
+            allowed = txt in tnames or any(txt in (f"{tn} is None", f"{tn} is not None") for tn in tnames)
+            ctx.check(allowed, "registry/payload-always-built", ctx.construct(q, g.node(n).ast) + f" | guard {txt}",
+                      f"the payload is built/decoded only when `{txt}` is {'true' if lab == 'T' else 'false'}: a record for which this does not hold - e.g. one with empty RDATA "
+                      "(Record_NULL(b''), UnknownRecord(b''), an empty TXT) - comes back with payload None (or stale) although the encoder emits it; only the outcome of the "
+                      "type look-up may decide this")
+    for a in appends:
+        w1 = g.must_precede(builds, [a], exc=False)
+        w2 = g.must_precede(decodes, [a], exc=False)
+        ctx.check(w1 is None and w2 is None, "registry/payload-always-built", ctx.construct(q, g.node(a).ast),
+                  "a record header can be appended to the section without its payload having been built and decoded", witness=g.describe(w1 or w2))
+
+
+_ROUNDTRIP_CASES = {
+    # class -> (attribute names, sample attribute tuples).  Items are chosen around the empty string and the 255/256-octet boundary.
+    "Record_TXT": (("data",), [([],), ([b""],), ([b"", b"a"],), ([b"k=v", b"", b"tail"],), ([b"a", b""],), ([b"x" * 255],), ([b"x" * 256],), ([b"a", b"x" * 255, b""],)]),
+    "Record_SPF": (("data",), [([b""],), ([b"v=spf1", b"", b"-all"],)]),
+    "Record_HINFO": (("cpu", "os"), [(b"", b""), (b"", b"linux"), (b"x86", b""), (b"c" * 255, b"o"), (b"c" * 256, b"o")]),
+    "Charstr": (("string",), [(b"",), (b"a",), (b"s" * 255,), (b"s" * 256,)]),
+    "_OPTVariableOption": (("code", "data"), [(3, b""), (3, b"abc"), (65535, b"\x00" * 300)]),
+    "UnknownRecord": (("data",), [(b"",), (b"xyz",)]),
+    "Record_NULL": (("payload",), [(b"",), (b"xyz",)]),
+    "Record_SSHFP": (("algorithm", "fingerprintType", "fingerprint"), [(1, 2, b""), (4, 1, b"f" * 20)]),
+    "Record_WKS": (("address", "protocol", "map"), [(b"\x01\x02\x03\x04", 6, b""), (b"\x01\x02\x03\x04", 17, b"\x00\x80")]),
+}
+
+
+def check_concrete_roundtrip(ctx, mod, consts):
+    """encode/decode of the length-prefixed leaf codecs are interpreted (whitelisted interpreter, BytesIO and struct from the
+    standard library) on items around the empty string and the 255/256 boundary: every item written must come back, the empty one
+    included; an item the format cannot carry must be refused by encode, not altered."""
+    classes = module_classes(mod)
+    for cname, (attrs, samples) in _ROUNDTRIP_CASES.items():
+        with ctx.section(f"concrete round trip {cname}"):
+            c = classes.get(cname) or _fail(f"{cname} vanished")
+            bad = None
+            n = 0
+            for vals in samples:
+                ev = MiniEval(mod, consts=consts)
+                src_inst = Inst(c, **{a: (list(v) if isinstance(v, list) else v) for a, v in zip(attrs, vals)})
+                buf = io.BytesIO()
+                k, r = run_eval(lambda: ev.method(src_inst, "encode", [buf]))
+                if k == "unsupported":
+                    _fail(f"{cname}.encode uses a construct outside the interpreted subset: {r}")
+                n += 1
+                shown = ", ".join(f"{a}={_short(v)}" for a, v in zip(attrs, vals))
+                if k == "raised":
+                    representable = all(len(x) <= 255 for v in vals for x in (v if isinstance(v, list) else [v]) if isinstance(x, bytes)) or cname in ("UnknownRecord", "Record_NULL", "_OPTVariableOption")
+                    if representable and not (cname == "_OPTVariableOption" and False):
+                        bad = bad or f"{cname}({shown}).encode() raises {r} although every item fits the format"
+                    continue
+                wire = buf.getvalue()
+                dst = Inst(c)
+                k, r = run_eval(lambda: ev.method(dst, "decode", [io.BytesIO(wire), len(wire)]))
+                if k == "unsupported":
+                    _fail(f"{cname}.decode uses a construct outside the interpreted subset: {r}")
+                if k == "raised":
+                    bad = bad or f"{cname}({shown}) encodes to {_short(wire)} which {cname}.decode refuses with {r}"
+                    continue
+                for a, v in zip(attrs, vals):
+                    got = dst.fields.get(a, "<unset>")
+                    if got != v or type(got) is not type(v):
+                        bad = bad or f"{cname}({shown}) encodes to {_short(wire)} and decodes to {a}={_short(got)}"
+            ctx.check(bad is None, "roundtrip/empty-and-boundary-items", f"{Q}.{cname} | encode/decode", bad or "", detail=f"{n} concrete instances interpreted")
+
+
+def _short(v) -> str:
+    if isinstance(v, list):
+        return "[" + ", ".join(_short(x) for x in v) + "]"
+    if isinstance(v, (bytes, bytearray)) and len(v) > 24:
+        return f"<{len(v)} bytes {bytes(v[:4])!r}..>"
+    return repr(v)
+
+
 def check_compare_attributes(ctx, mod, consts):
     for c in [c for c in mod.tree.body if isinstance(c, ast.ClassDef) and "decode" in methods(c)]:
         with ctx.section(f"compareAttributes {c.name}"):
@@ -1247,6 +1364,9 @@ def check(ctx):
         check_truncation(ctx, mod, consts)
     with ctx.section("registry"):
         check_registry(ctx, mod, consts)
+    with ctx.section("payload always built"):
+        check_payload_always_built(ctx, mod, consts)
+    check_concrete_roundtrip(ctx, mod, consts)   # one section per class inside
     check_compare_attributes(ctx, mod, consts)   # one section per class inside
 
 
@@ -1285,6 +1405,18 @@ MUTANTS = [
     Mutant("second-unguarded-label-writer", DNS, "            strio.write(_ord2bytes(ind))\n            strio.write(label)\n        strio.write(b\"\\x00\")\n",
            "            strio.write(_ord2bytes(ind))\n            strio.write(label)\n        if self.name.endswith(b\".\"):\n            strio.write(_ord2bytes(len(self.name)))\n        strio.write(b\"\\x00\")\n",
            expect_rule="name/label-length-limit"),
+    Mutant("payload-skipped-for-empty-rdata", DNS, "            header.payload = t(ttl=header.ttl)\n            try:\n                header.payload.decode(strio, header.rdlength)\n            except EOFError:\n                return\n            list.append(header)\n",
+           "            if header.rdlength > 0:\n                header.payload = t(ttl=header.ttl)\n                try:\n                    header.payload.decode(strio, header.rdlength)\n                except EOFError:\n                    return\n            list.append(header)\n",
+           expect_rule="registry/payload-always-built"),
+    Mutant("empty-records-appended-undecoded", DNS, "            header.payload = t(ttl=header.ttl)\n            try:\n                header.payload.decode(strio, header.rdlength)\n",
+           "            if header.rdlength == 0 and header.type != TXT:\n                list.append(header)\n                continue\n            header.payload = t(ttl=header.ttl)\n            try:\n                header.payload.decode(strio, header.rdlength)\n",
+           expect_rule="registry/payload-always-built"),
+    Mutant("txt-empty-strings-not-written", DNS, "        for d in self.data:\n            strio.write(struct.pack(\"!B\", len(d)) + d)\n", "        for d in self.data:\n            if d:\n                strio.write(struct.pack(\"!B\", len(d)) + d)\n",
+           expect_rule="roundtrip/empty-and-boundary-items"),
+    Mutant("txt-long-strings-chunked", DNS, "        for d in self.data:\n            strio.write(struct.pack(\"!B\", len(d)) + d)\n",
+           "        for d in self.data:\n            pos = 0\n            while pos < len(d):\n                piece = d[pos : pos + 255]\n                strio.write(struct.pack(\"!B\", len(piece)) + piece)\n                pos += 255\n",
+           expect_rule="roundtrip/empty-and-boundary-items"),
+    Mutant("hinfo-empty-cpu-becomes-none", DNS, "        self.cpu = readPrecisely(strio, cpu)\n", "        self.cpu = readPrecisely(strio, cpu) if cpu else None\n", expect_rule="roundtrip/empty-and-boundary-items"),
     Mutant("pointer-hops-capped", DNS, "        visited = set()\n        self.name = b\"\"\n", "        hops = 0\n        self.name = b\"\"\n",
            more=[(DNS, "                if new_off in visited:\n                    raise ValueError(\"Compression loop in encoded name\")\n                visited.add(new_off)\n",
                   "                hops += 1\n                if hops > 16:\n                    raise ValueError(\"Compression loop in encoded name\")\n")],
@@ -1315,5 +1447,7 @@ SILENT = [
            "        if length < 5:\n            raise EOFError\n        r = struct.unpack(\"!4sB%ds\" % (length - 5,), readPrecisely(strio, length))\n        self.address, self.protocol, self.map = r\n",
            more=[(DNS, "        strio.write(self.address)\n        strio.write(struct.pack(\"!B\", self.protocol))\n        strio.write(self.map)\n",
                   "        strio.write(struct.pack(\"!4sB\", self.address, self.protocol))\n        strio.write(self.map)\n")]),
+    Silent("parse-records-type-test-explicit", DNS, "            if not t:\n                continue\n            header.payload = t(ttl=header.ttl)\n", "            if t is None:\n                continue\n            header.payload = t(ttl=header.ttl)\n"),
+    Silent("txt-encode-two-writes-per-string", DNS, "        for d in self.data:\n            strio.write(struct.pack(\"!B\", len(d)) + d)\n", "        for d in self.data:\n            strio.write(struct.pack(\"!B\", len(d)))\n            strio.write(d)\n"),
     Silent("header-flags-with-shifts-reordered", DNS, "            ((self.answer & 1) << 7)\n            | ((self.opCode & 0xF) << 3)\n", "            ((self.opCode & 0xF) << 3)\n            | ((self.answer & 1) << 7)\n"),
 ]
